@@ -78,7 +78,7 @@ def gen_probe(src, info):
             args = [src.pick([["$fn", "identity", 0], ["$fn", "with_first", 0], ["$fn", "with_first", 0]])] if src.chance(3, 4) else []
             return {"t": "call", "m": f"transform_{a}", "a": args, "k": dict(k, **{inner: fn2}), "form": "transform_nested"}
         fn = ops.gen_fn(src, T)
-        while fn[1] in ("wrong", "existing", "with_first"):
+        while fn[1] in ("wrong", "existing", "with_first", "keyless"):
             fn = ops.gen_fn(src, T)
         return {"t": "call", "m": f"transform_{a}", "a": [fn], "k": k, "form": "transform"}
     if m == 6:
@@ -103,7 +103,7 @@ def gen_probe(src, info):
     kw = {}
     for a in chosen:
         fn = ops.gen_fn(src, attrs[a]["type"])
-        while fn[1] in ("wrong", "existing", "with_first"):
+        while fn[1] in ("wrong", "existing", "with_first", "keyless"):
             fn = ops.gen_fn(src, attrs[a]["type"])
         kw[a] = fn
     return {"t": "call", "m": "transform", "a": [], "k": dict(k, **kw), "form": "transform_top"}
